@@ -73,6 +73,17 @@ fn hostile_payload(rng: &mut StdRng, class: usize) -> Vec<u8> {
         11 => adv::PREAMBLE.to_vec(),                                        // preamble only
         12 => { let mut v = valid.clone(); let n = v.len(); v.truncate(n - 7 - 4); v.extend_from_slice(&u32::MAX.to_be_bytes()); v } // body length absurd
         13 => valid_request(&"/".repeat(rng.gen_range(0..3000)), &[("hostile", "1")], b""), // odd long route, well-formed
+        15 => valid_request("", &[("hostile", "1")], b"empty route"),          // well-formed, empty route
+        16 => valid_request(["x", "\0", " ", "?", "\u{feff}/", "*", "/:a/*b"][rng.gen_range(0..7)], &[("hostile", "1")], b""), // odd short routes
+        17 => {
+            // well-formed, many / empty / odd headers
+            let many: Vec<(String, String)> = (0..rng.gen_range(0..400)).map(|i| (format!("h{i}"), "v".repeat(i % 7))).collect();
+            let mut hs: Vec<(&str, &str)> = many.iter().map(|(k, v)| (k.as_str(), v.as_str())).collect();
+            hs.extend_from_slice(&[("hostile", "1"), ("", ""), ("timeout", "-1"), ("status-message", "\0"), ("delay-ms", "x")]);
+            valid_request("/hostile/headers", &hs, b"")
+        }
+        18 => valid_request("/hostile/slow", &[("hostile", "1"), ("delay-ms", "4000")], b"slow"),   // handler still running later
+        19 => valid_request("/hostile/hold", &[("hostile", "1"), ("hold", "1")], b"never answered"),
         _ => valid_request(&format!("/{}", "é".repeat(rng.gen_range(30..120))), &[("hostile", "1")], b""), // long multi-byte route
     }
 }
@@ -143,7 +154,7 @@ async fn run(mut sim: Sim, seed: u64, streams: usize) -> Result<Value, String> {
             }
             // one hostile stream
             hostile_streams += 1;
-            let class = rng.gen_range(0..15);
+            let class = rng.gen_range(0..20);
             let payload = hostile_payload(&mut rng, class);
             let ending = rng.gen_range(0..6);
             sim.run.obs(100, "adv.stream", json!({"class": class, "len": payload.len(), "ending": ending}));
@@ -180,6 +191,19 @@ async fn run(mut sim: Sim, seed: u64, streams: usize) -> Result<Value, String> {
             }
         }
         settle(&mut sim, 200).await;
+        // requests whose handlers are still running when the connection ends
+        for _ in 0..rng.gen_range(0..9) {
+            if let Ok(Ok((mut tx, rx))) = tokio::time::timeout(Duration::from_secs(5), conn.open_bi()).await {
+                let class = 18 + rng.gen_range(0..2);
+                let payload = hostile_payload(&mut rng, class);
+                sim.run.obs(100, "adv.stream", json!({"class": class, "len": payload.len(), "ending": "inflight-at-close"}));
+                let _ = tx.write_all(&payload).await;
+                let _ = tx.finish();
+                std::mem::forget(tx);
+                std::mem::forget(rx);
+            }
+        }
+        settle(&mut sim, rng.gen_range(0..30)).await;
         // abrupt end of the connection, in different ways; then reconnect
         match round % 3 {
             0 => conn.close(rng.gen_range(0..1000u32).into(), b"bye"),
